@@ -912,7 +912,7 @@ func (w *World) submatchGroups(call *ssa.Call) (int, bool) {
 // Candidates: p >= 0, p >= 1, p <= len(q), p + 1 <= len(q), len(q) >= 1 over
 // integer parameters p and slice/string parameters q.
 type condFact struct {
-	kind byte // 'n' p>=k ; 's' p+k<=len(q) ; 'l' len(q)>=k
+	kind byte // 'n' p>=k ; 's' p+k<=len(q) ; 'l' len(q)>=k ; 'u' p<=k
 	p, q int
 	k    int64
 }
@@ -948,6 +948,40 @@ func (w *World) condPost(fn *ssa.Function, resIdx int, K int64) []condFact {
 	}
 	for _, q := range seqs {
 		cands = append(cands, condFact{'l', 0, q, 1})
+	}
+	// upper bounds p <= k, k taken from the constants p is compared with
+	for _, p := range ints {
+		seen := map[int64]bool{}
+		for _, b := range fn.Blocks {
+			for _, in := range b.Instrs {
+				bo, ok := in.(*ssa.BinOp)
+				if !ok {
+					continue
+				}
+				switch bo.Op {
+				case token.LSS, token.LEQ, token.GTR, token.GEQ:
+				default:
+					continue
+				}
+				var kv ssa.Value
+				if bo.X == ssa.Value(fn.Params[p]) {
+					kv = bo.Y
+				} else if bo.Y == ssa.Value(fn.Params[p]) {
+					kv = bo.X
+				}
+				if kv == nil {
+					continue
+				}
+				if k, ok := constInt(kv); ok && k.IsInt64() && k.Int64() > 0 && k.Int64() < 1<<40 {
+					for _, kk := range []int64{k.Int64() - 1, k.Int64()} {
+						if !seen[kk] {
+							seen[kk] = true
+							cands = append(cands, condFact{'u', p, 0, kk})
+						}
+					}
+				}
+			}
+		}
 	}
 	fi := w.Info(fn)
 	alive := make([]bool, len(cands))
@@ -988,6 +1022,8 @@ func (w *World) condPost(fn *ssa.Function, resIdx int, K int64) []condFact {
 				g = lin.LE(c.Lin(fn.Params[cd.p]).AddK(cd.k), c.LenOf(fn.Params[cd.q]))
 			case 'l':
 				g = lin.GE(c.LenOf(fn.Params[cd.q]), lin.K(cd.k))
+			case 'u':
+				g = lin.LE(c.Lin(fn.Params[cd.p]), lin.K(cd.k))
 			}
 			if !c.Prove(g) {
 				alive[i] = false
@@ -1034,6 +1070,8 @@ func (c *Ctx) condCallFacts(call *ssa.Call, K int64) {
 			c.add(lin.LE(c.Lin(cc.Args[cd.p]).AddK(cd.k), c.LenOf(cc.Args[cd.q])))
 		case 'l':
 			c.add(lin.GE(c.LenOf(cc.Args[cd.q]), lin.K(cd.k)))
+		case 'u':
+			c.add(lin.LE(c.Lin(cc.Args[cd.p]), lin.K(cd.k)))
 		}
 	}
 }
